@@ -187,6 +187,18 @@ func main() {
 			ins := []wl.Op{{Kind: "chpub", PC: "cur", NPC: "fresh"}, {Kind: "create", PC: "cur", SeedKind: "fresh", Remark: "after-chpub"}, {Kind: "next", N: 2}}
 			pos := 1 + rng.Intn(len(histOps[i]))
 			histOps[i] = append(histOps[i][:pos], append(ins, histOps[i][pos:]...)...)
+			switch i % 12 {
+			case 3, 9: // the public passphrase is changed while the wallet holds NO keystore yet (before the first create)
+				histOps[i] = append([]wl.Op{{Kind: "chpub", PC: "cur", NPC: "fresh"}}, histOps[i]...)
+			case 6: // ... or holds none any more: every keystore is deleted, then chpub, create, keys
+				var del []wl.Op
+				for d := 0; d < 8; d++ {
+					del = append(del, wl.Op{Kind: "delete", PC: "cur", K: 0})
+				}
+				del = append(del, wl.Op{Kind: "chpub", PC: "cur", NPC: "fresh"}, wl.Op{Kind: "create", PC: "cur", SeedKind: "fresh", Remark: "after-empty-chpub"}, wl.Op{Kind: "next", N: 2})
+				pos := 1 + rng.Intn(len(histOps[i]))
+				histOps[i] = append(histOps[i][:pos:pos], append(del, histOps[i][pos:]...)...)
+			}
 		case 1: // a keystore deleted and created again from the same seed, with fewer keys than before
 			ins := []wl.Op{{Kind: "next", N: 3, K: 0}, {Kind: "next", N: 2, Internal: true, K: 0}, {Kind: "delete", PC: "cur", K: 0}, {Kind: "create", PC: "cur", SeedKind: "revive", Remark: "again"}, {Kind: "next", N: 1, K: 7}, {Kind: "genpub"}}
 			pos := 1 + rng.Intn(len(histOps[i]))
